@@ -96,6 +96,18 @@ end Heap
 
 open Heap
 
+/-- the slice header describes a window of an existing array: `len ≤ cap` and the `cap` cells
+from `off` on lie inside the array.  Every slice value a Go program can hold satisfies this.  (A
+dangling header is allowed when its capacity is 0 — the `nil` slice.) -/
+def WF {α : Type} (h : Heap α) (s : Slice) : Prop :=
+  s.len ≤ s.cap ∧ s.off + s.cap ≤ (h.get s.arr).length
+
+instance {α : Type} (h : Heap α) (s : Slice) : Decidable (WF h s) := by unfold WF; infer_instance
+
+/-- `s` is not part of a heap with `n` arrays: its array was allocated later, or it owns no
+cell at all -/
+def Fresh (n : Nat) (s : Slice) : Prop := n ≤ s.arr ∨ s.cap = 0
+
 /-! ### byte-level helpers of sequence.go / nucleotide.go -/
 
 section bytes
@@ -265,6 +277,15 @@ def readTab (w : World φ) (s : MSeq) : List φ := read w.T s.tab
 def readDat (w : World φ) (s : MSeq) : List UInt8 := read w.B s.dat
 
 end World
+
+/-- FRAME: every array (residues and feature tables) that existed in `w` exists unchanged in
+`w'` — whole backing arrays, so spare capacity and enclosing buffers are covered -/
+def Frame {φ : Type} (w w' : World φ) : Prop := w.B <+: w'.B ∧ w.T <+: w'.T
+
+/-- both slice headers of a sequence are well formed -/
+def WFSeq {φ : Type} (w : World φ) (s : MSeq) : Prop := WF w.T s.tab ∧ WF w.B s.dat
+
+instance {φ : Type} (w : World φ) (s : MSeq) : Decidable (WFSeq w s) := by unfold WFSeq; infer_instance
 
 /-- the index `FeatureSlice.Insert` computes (`Table.insert` of Seq.lean splits at this index) -/
 def insertPos (ff : Table) (f : Feature) : Nat :=
@@ -496,6 +517,24 @@ def pureOp (w : World Feature) (v : Seq) : Op → Seq
   | .concat before after => Seq.concat (before.map (readSeq w) ++ v :: after.map (readSeq w))
   | .tabInsert f => ⟨Table.insert v.feats f, v.bytes⟩
   | .filterOverlap lo hi => ⟨v.feats.filter fun f => f.loc.overlap lo hi, v.bytes⟩
+
+/-- the arguments of `op` are acceptable for `s` in `w`: the other sequences are well formed and
+the indices are in the range in which the Go code does not panic -/
+def OpOK (w : World Feature) (s : MSeq) : Op → Prop
+  | .insert i guest => WFSeq w guest ∧ 0 ≤ i ∧ i ≤ s.len
+  | .embed i guest => WFSeq w guest ∧ 0 ≤ i ∧ i ≤ s.len
+  | .delete i n => 0 ≤ i ∧ 0 ≤ n ∧ i + n ≤ s.len
+  | .erase i n => 0 ≤ i ∧ 0 ≤ n ∧ i + n ≤ s.len
+  | .slice a b =>
+      (0 ≤ (if a < 0 then a + s.len else a) ∧ (if a < 0 then a + s.len else a) ≤ s.len) ∧
+      (0 ≤ (if b < 0 then b + s.len else b) ∧ (if b < 0 then b + s.len else b) ≤ s.len) ∧ 0 < s.len
+  | .rotate _ => 0 < s.len
+  | .reverse => True
+  | .complement => True
+  | .transcribe => True
+  | .concat before after => (∀ q ∈ before, WFSeq w q) ∧ (∀ q ∈ after, WFSeq w q)
+  | .tabInsert _ => True
+  | .filterOverlap _ _ => True
 
 /-- run a program: every operation is applied to the SAME `s`, in the world the previous
 operations left behind; returns the results in order and the final world -/
